@@ -55,7 +55,7 @@ type hsgIdent struct {
 
 func (id *hsgIdent) versions() []cert.Version {
 	var vs []cert.Version
-	for _, v := range []cert.Version{cert.Version1, cert.Version2} {
+	for _, v := range []cert.Version{cert.VersionPre1, cert.Version1, cert.Version2, 3} {
 		if id.certs[v] != nil {
 			vs = append(vs, v)
 		}
@@ -196,6 +196,33 @@ func hsgZooFor(curve cert.Curve) *hsgZoo {
 		full.body[v] = b
 	}
 	z.idents = append(z.idents, full)
+	// the same theft with a lying version label: the adversary announces certificate version 0
+	// ("pre-1") or an unknown version while sending the victim's complete or stripped certificate
+	for _, lab := range []cert.Version{cert.VersionPre1, 3} {
+		for _, stripped := range []bool{false, true} {
+			src := a.certs[cert.Version1]
+			if src == nil {
+				continue
+			}
+			var body []byte
+			var err error
+			if stripped {
+				body, err = src.MarshalForHandshakes()
+			} else {
+				body, err = src.Marshal()
+			}
+			if err != nil {
+				panic(err)
+			}
+			lying := &hsgIdent{idx: len(z.idents), name: fmt.Sprintf("labelA-v%d-stripped%v", lab, stripped), kind: hsgFullCert,
+				certs: map[cert.Version]cert.Certificate{lab: hsgLabelled{m.certs[cert.Version1], lab}}, body: map[cert.Version][]byte{lab: body},
+				priv: m.priv, pub: m.pub, adversary: true, victim: a, keyOf: m}
+			if m.certs[cert.Version1] == nil {
+				continue
+			}
+			z.idents = append(z.idents, lying)
+		}
+	}
 
 	if curve == cert.Curve_P256 {
 		z.lowOrds = hsgP256Invalid()
@@ -205,6 +232,14 @@ func hsgZooFor(curve cert.Curve) *hsgZoo {
 	hsgZoos[curve] = z
 	return z
 }
+
+// hsgLabelled presents a certificate under another version number.
+type hsgLabelled struct {
+	cert.Certificate
+	v cert.Version
+}
+
+func (l hsgLabelled) Version() cert.Version { return l.v }
 
 // hsgX25519LowOrder: the small-order points of Curve25519 (and non-canonical aliases); X25519
 // with any of them yields the all-zero output, which x/crypto reports as an error.
